@@ -227,7 +227,7 @@ def run(tier: str, seed: int) -> int:
     auto = [c for c in configs if c["method"] == "auto" and c["weight"] == "auto" and c["box"] in ("default", "tight") and c["constraint"] == "none"]
     semi = [c for c in configs if (c["method"] == "auto") != (c["weight"] == "auto")]
     if tier == "quick":
-        chosen = rng.sample(cheap, 500) + rng.sample(auto, 16) + rng.sample(semi, 12)
+        chosen = rng.sample(cheap, 1200) + rng.sample(auto, 24) + rng.sample(semi, 24)
     else:
         chosen = rng.sample(cheap, 2500) + auto + rng.sample(semi, 120)
     with ProcessPoolExecutor(max_workers=15) as ex:
